@@ -157,13 +157,13 @@ theorem udelete_cached (o : Order Name) (m : Mem) (fs : FS Name) (u : String) (n
     isCached (udelete o m fs u).1 n = isCached m n := by
   simp [isCached, (udelete_calls o m fs u).2]
 
-theorem commit_spec (cfg : Cfg) (o : Order Name) (m : Mem) (fs : FS Name) (u n : String) (b : Bytes)
+theorem commit_spec (cfg : Cfg) (hv : cfg.verify = true) (o : Order Name) (m : Mem) (fs : FS Name) (u n : String) (b : Bytes)
     (hs : Sync m fs) (hu : u ∈ m.uploads) (hd : fs.file? (uploadDir u) .data = some b) (hb : cfg.digest b = n) :
     ((commit cfg o m fs u n).res = .ok ∨ (commit cfg o m fs u n).res = .exist) ∧
     isCached (commit cfg o m fs u n).mem n = true := by
   unfold commit
-  have hv : ¬ (cfg.digest b ≠ n) := by simp [hb]
-  simp only [hu, not_true_eq_false, if_false, hd, hv]
+  have hv' : ¬ (cfg.verify = true ∧ cfg.digest b ≠ n) := by simp [hb]
+  simp only [hu, not_true_eq_false, if_false, hd, hv']
   split
   · rename_i hc
     refine ⟨Or.inr rfl, ?_⟩
@@ -179,13 +179,15 @@ theorem commit_spec (cfg : Cfg) (o : Order Name) (m : Mem) (fs : FS Name) (u n :
       simp [isCached, aget_aset_self]
 
 theorem writeMeta_spec {cfg : Cfg} (hp : Params cfg) (m : Mem) (fs : FS Name) (n : String) (src : Option Bytes)
-    (g : GoodFS cfg fs) (hs : Sync m fs) (hc : isCached m n = true) (hsrc : ∀ b, src = some b → cfg.digest b = n) :
+    (g : GoodFS cfg fs) (hs : Sync m fs) (hc : isCached m n = true ∨ (fs.file? (cacheDir n) .data).isSome = true)
+    (hsrc : ∀ b, src = some b → cfg.digest b = n) :
     (writeMeta cfg m fs n src).res = .ok ∧ isCached (writeMeta cfg m fs n src).mem n = true ∧
+    (applyAll fs (writeMeta cfg m fs n src).calls).file? (cacheDir n) .data = fs.file? (cacheDir n) .data ∧
     ∃ c, (applyAll fs (writeMeta cfg m fs n src).calls).file? (cacheDir n) .data = some c ∧ cfg.digest c = n ∧
       (applyAll fs (writeMeta cfg m fs n src).calls).file? (cacheDir n) .tmeta = some (cfg.genMI c) := by
   obtain ⟨hn, hfs⟩ := lockCache_calls cfg m fs n
   obtain ⟨l1, l2, _⟩ := lockCache_sync cfg m fs n hs
-  have hpres := lockCache_present cfg m fs n (Or.inl hc)
+  have hpres := lockCache_present cfg m fs n hc
   have hcl := l2 hpres
   have hdl := l1 n hcl
   unfold writeMeta
@@ -196,7 +198,9 @@ theorem writeMeta_spec {cfg : Cfg} (hp : Params cfg) (m : Mem) (fs : FS Name) (n
     simp only
     have gl : GoodFS cfg (lockCache cfg m fs n).fs := by rw [hfs]; exact neutral_all g _ hn
     have hdig : cfg.digest c = n := gl.dataOK n c hdc
-    refine ⟨(by first | rfl | trivial), hcl, c, ?_, hdig, ?_⟩
+    refine ⟨(by first | rfl | trivial), hcl, ?_, c, ?_, hdig, ?_⟩
+    · simp only [applyAll_append]; rw [← hfs, file?_cawPlan_other_all _ _ _ _ _ _ _ (by simp)]
+      exact (lockCache_frame cfg m fs n n).1
     · simp only [applyAll_append]; rw [← hfs, file?_cawPlan_other_all _ _ _ _ _ _ _ (by simp)]; exact hdc
     · simp only [applyAll_append]; rw [← hfs, file?_cawPlan _ _ _ _ (cacheDir_ne_nil n)]
       congr 1
@@ -224,22 +228,92 @@ theorem refresh_regenerates {cfg : Cfg} (hp : Params cfg) (o : Order Name) (m : 
   generalize uwrite cfg r1.mem (applyAll fs r1.calls) (tmpName n) 0 b = r2 at b1 b2 k2 ⊢
   have g2 : GoodFS cfg (applyAll (applyAll fs r1.calls) r2.calls) := all_of_prefix _ _ _ (k2.pre g1)
   have s2 : Sync r2.mem (applyAll (applyAll fs r1.calls) r2.calls) := k2.sync s1
-  obtain ⟨c1, c2⟩ := commit_spec cfg o r2.mem (applyAll (applyAll fs r1.calls) r2.calls) (tmpName n) n b s2
+  obtain ⟨c1, c2⟩ := commit_spec cfg hp.verify o r2.mem (applyAll (applyAll fs r1.calls) r2.calls) (tmpName n) n b s2
     (by rw [b1]; exact a2) b2 hb
-  have k3 := commit_ok cfg o r2.mem (applyAll (applyAll fs r1.calls) r2.calls) (tmpName n) n
+  have k3 := commit_ok cfg hp.verify o r2.mem (applyAll (applyAll fs r1.calls) r2.calls) (tmpName n) n
   generalize commit cfg o r2.mem (applyAll (applyAll fs r1.calls) r2.calls) (tmpName n) n = r3 at c1 c2 k3 ⊢
   have g3 := all_of_prefix _ _ _ (k3.pre g2)
   have s3 := k3.sync s2
   have hres : ¬(r3.res ≠ Res.ok ∧ r3.res ≠ Res.exist) := by
     rcases c1 with h | h <;> simp [h]
   simp only [hres, if_false]
-  obtain ⟨w1, w2, c, w3, w4, w5⟩ := writeMeta_spec hp r3.mem _ n (if cfg.mem = true ∧ cfg.digest b = n then some b else none)
-    g3 s3 c2 (fun b' hb' => by
+  obtain ⟨w1, w2, _, c, w3, w4, w5⟩ := writeMeta_spec hp r3.mem _ n
+    (if cfg.mem = true ∧ (cfg.verify = false ∨ cfg.digest b = n) then some b else none)
+    g3 s3 (Or.inl c2) (fun b' hb' => by
       split at hb'
-      · rename_i hc; cases hb'; exact hc.2
+      · cases hb'; exact hb
       · cases hb')
   refine ⟨w1, w2, c, ?_, w4, ?_⟩
   · simpa only [applyAll_append] using w3
   · simpa only [applyAll_append] using w5
+
+/-! ### the metainfo request of the origin -/
+
+theorem getmeta_neutral (cfg : Cfg) (m : Mem) (fs : FS Name) (n : String) : ∀ c ∈ (getmeta cfg m fs n).calls, Neutral c := by
+  obtain ⟨hn, _⟩ := loadCache_calls cfg m fs n
+  unfold getmeta
+  simp only
+  split
+  · simp
+  · split <;> exact hn
+
+/-- a blob that is cached has its metainfo served by the request, whatever sidecar a crash left and
+whether or not the backend holds the blob -/
+theorem metareq_serves_cached {cfg : Cfg} (hp : Params cfg) (o : Order Name) (m : Mem) (fs : FS Name) (n : String) (c : Bytes)
+    (backend : Option Bytes) (g : GoodFS cfg fs) (hs : Sync m fs) (hd : fs.file? (cacheDir n) .data = some c) :
+    (metareq cfg o m fs n backend).res = .found (cfg.genMI c) := by
+  have hdig : cfg.digest c = n := g.dataOK n c hd
+  unfold metareq
+  simp only
+  have k1 := getmeta_ok cfg m fs n
+  have hn1 := getmeta_neutral cfg m fs n
+  have hsound := getmeta_sound (m := m) hp g n
+  generalize getmeta cfg m fs n = g1 at k1 hn1 hsound ⊢
+  split
+  · rename_i t ht
+    obtain ⟨b, hb, rfl⟩ := hsound t ht
+    rw [hp.miByName _ _ (hb.trans hdig.symm)]
+  · have g1' : GoodFS cfg (applyAll fs g1.calls) := all_of_prefix _ _ _ (k1.pre g)
+    have s1 : Sync g1.mem (applyAll fs g1.calls) := k1.sync hs
+    have hd1 : (applyAll fs g1.calls).file? (cacheDir n) .data = some c := by
+      rw [(neutral_frame_all _ hn1 fs n).1]; exact hd
+    have hpres := loadCache_present cfg g1.mem (applyAll fs g1.calls) n (Or.inr (by rw [hd1]; rfl))
+    simp only [hpres, if_true]
+    obtain ⟨_, _, w3, c', w4, _, w5⟩ := writeMeta_spec hp g1.mem (applyAll fs g1.calls) n none g1' s1
+      (Or.inr (by rw [hd1]; rfl)) (fun _ h => by cases h)
+    have hcc : c' = c := by rw [w3, hd1] at w4; cases w4; rfl
+    subst hcc
+    have := getmeta_spec cfg (writeMeta cfg g1.mem (applyAll fs g1.calls) n none).mem
+      (applyAll (applyAll fs g1.calls) (writeMeta cfg g1.mem (applyAll fs g1.calls) n none).calls) n c' _ w4 w5 (hp.miGood c')
+    simp only [genmeta, this]
+
+/-- a blob that is not cached but held by the backend: the request starts the refresh (202), after
+which the request is served -/
+theorem metareq_fetches {cfg : Cfg} (hp : Params cfg) (o o' : Order Name) (m : Mem) (fs : FS Name) (n : String) (b : Bytes)
+    (backend' : Option Bytes) (g : GoodFS cfg fs) (hs : Sync m fs) (hd : fs.file? (cacheDir n) .data = none)
+    (hb : cfg.digest b = n) (hfresh : tmpName n ∉ m.uploads) :
+    (metareq cfg o m fs n (some b)).res = .accepted ∧
+    ∃ c, cfg.digest c = n ∧
+      (metareq cfg o' (metareq cfg o m fs n (some b)).mem (applyAll fs (metareq cfg o m fs n (some b)).calls) n backend').res =
+        .found (cfg.genMI c) := by
+  have hnc : isCached m n = false := by
+    cases h : isCached m n with
+    | false => rfl
+    | true => have := hs n h; rw [hd] at this; cases this
+  have hg : getmeta cfg m fs n = ⟨m, [], .absent⟩ := by
+    unfold getmeta loadCache
+    simp [hnc, hd]
+  have hl : (loadCache cfg m fs n).present = false := by
+    unfold loadCache
+    simp [hnc, hd]
+  have hm : metareq cfg o m fs n (some b) =
+      ⟨(refresh cfg o m fs n b).mem, (refresh cfg o m fs n b).calls, .accepted⟩ := by
+    unfold metareq
+    simp only [hg, applyAll_nil, hl, Bool.false_eq_true, if_false, List.nil_append]
+  obtain ⟨_, r2, c, r3, r4, _⟩ := refresh_regenerates hp o m fs n b g hs hb hfresh
+  have k := refresh_ok hp o m fs n b
+  rw [hm]
+  refine ⟨rfl, c, r4, ?_⟩
+  exact metareq_serves_cached hp o' _ _ n c backend' (all_of_prefix _ _ _ (k.pre g)) (k.sync hs) r3
 
 end KrakenModel.OriginCrash
